@@ -183,11 +183,16 @@ def main():
     # specification beyond the letter of C05: disagreements are recorded as observations in the evidence, not as violations.
     from props import national
     np_ = {'seed': chk.seed, 'bases': 6 if quick else 80, 'random': 150 if quick else 4000}
-    nsh = chk.drive([('nat', m, np_) for m in national.MODULES], national.worker)
-    nrej = chk.validate('Trace_National', nsh, own_clauses={'N0', 'N1', 'N2'}, label='national transcriptions (observation)')
-    nextra = run.merge_extra(nsh)
-    chk.cov['national_transcriptions'] = {'modules': national.MODULES, 'events': nextra.get('national', 0),
-                                          'disagreements': sorted(set('%s %r (%s)' % (r['meta'].get('m'), r['meta'].get('w'), r['meta'].get('outcome')) for r in nrej))[:60]}
+    # (an observation stage must never decide the check: a failure of its machinery is recorded, not raised)
+    try:
+        nsh = chk.drive([('nat', m, np_) for m in national.MODULES], national.worker)
+        nrej = chk.validate('Trace_National', nsh, own_clauses={'N0', 'N1', 'N2'}, label='national transcriptions (observation)')
+        nextra = run.merge_extra(nsh)
+        chk.cov['national_transcriptions'] = {'modules': national.MODULES, 'events': nextra.get('national', 0),
+                                              'disagreements': sorted(set('%s %r (%s)' % (r['meta'].get('m'), r['meta'].get('w'), r['meta'].get('outcome')) for r in nrej))[:60]}
+    except run.MachineryError as e:
+        chk.cov['national_transcriptions'] = {'modules': national.MODULES, 'error': str(e)[:600]}
+        chk.notes.append('the observation stage (national transcriptions) could not be evaluated: ' + str(e)[:200])
     return chk.finish(samples=first_meta(shards), distinct_nontrivial=extra.get('p1', 0) + extra.get('p2', 0) + extra.get('p3', 0),
                       rule='per bound generator: p1 on every picked valid number, p2 = every other character of the check alphabet at every '
                            'check position, p3 = payloads of the shape of valid numbers with 1-3 payload characters re-drawn, completed '
